@@ -1344,7 +1344,7 @@ func main() {
 		tier = os.Args[1]
 	}
 	R = mon.Start("C05", tier)
-	R.Rule = "one case = one (key type, value type, key-set shape) dictionary: the Go-map model is built first; tongo builds it by Put in all/20 insertion orders and by NewHashmapE (root hashes must coincide), the reference reader (ref/dict) reads tongo's cell tree and must return the model, tongo decodes its own output and 6 reference-written variants (canonical, forced short/long/same labels, two random mixes; delivered in memory or through a BOC) and must list the model in ascending key-bit order; Get for all present (<=300) and 50 absent keys; Put updates/inserts on a decoded dictionary, re-encoded and read back by the reference; HashmapAugE written by the reference decoded by tongo. One case in six gives all keys the same value (plus value type Unit = no bits at all), decoded also after a trip through a BOC (equal sibling sub-trees are one cell there). NewHashmapE also from keys in arbitrary order. Plain Hashmap / HashmapAug IN LINE: the reference-written root (all label forms) spliced between random bits and 0..2 references of neighbouring fields, tongo reads the leading fields, the dictionary at the cursor, then the trailing fields; tongo's Marshal(NewHashmap) in line read by the reference; tlb.LibDescr alone and inside HashmapE 256 LibDescr; decoding into a used plain Hashmap / HashmapAug variable; deriving operations leave the decoded dictionary intact: tlb.ConfigParams decoded from a reference-written cell, then a random script of CloneKeepingSubsetOfKeys (random / non-prefix / suffix / empty / all subsets, absent and repeated numbers), Put on a clone, Put on the original, Marshal of the original, with the original and every clone compared with their own models (Items, Keys/Values, Get) after every step; Items() again after the lookups and after Marshal of a decoded HashmapE; tlb.ProveKeyInHashmap as one more lookup on the cell tree of the own encoding and of one foreign variant per case (dictionaries up to 300 entries: 3 present keys must be found with their values, up to 8 absent keys - a present key with one bit flipped at the end / inside the leaf label / anywhere, random - must not be found); BlockExtra.InMsgDescrLength/OutMsgDescrLength (second label parser) = number of entries for 256-bit keys. evaluations = comparisons made; non-trivial = non-empty dictionary; distinct = (sub-check, key type, value type, root hash of the encoding[, label-form mix | update script])"
+	R.Rule = "one case = one (key type, value type, key-set shape) dictionary: the Go-map model is built first; tongo builds it by Put in all/20 insertion orders and by NewHashmapE (root hashes must coincide), the reference reader (ref/dict) reads tongo's cell tree and must return the model, tongo decodes its own output and 6 reference-written variants (canonical, forced short/long/same labels, two random mixes; delivered in memory or through a BOC) and must list the model in ascending key-bit order; Get for all present (<=300) and 50 absent keys; Put updates/inserts on a decoded dictionary, re-encoded and read back by the reference; HashmapAugE written by the reference decoded by tongo. One case in six gives all keys the same value (plus value type Unit = no bits at all), decoded also after a trip through a BOC (equal sibling sub-trees are one cell there). NewHashmapE also from keys in arbitrary order. Plain Hashmap / HashmapAug IN LINE: the reference-written root (all label forms) spliced between random bits and 0..2 references of neighbouring fields, tongo reads the leading fields, the dictionary at the cursor, then the trailing fields; tongo's Marshal(NewHashmap) in line read by the reference; tlb.LibDescr alone and inside HashmapE 256 LibDescr; decoding into a used plain Hashmap / HashmapAug variable; deriving operations leave the decoded dictionary intact: tlb.ConfigParams decoded from a reference-written cell, then a random script of CloneKeepingSubsetOfKeys (random / non-prefix / suffix / empty / all subsets, absent and repeated numbers), Put on a clone, Put on the original, Marshal of the original, with the original and every clone compared with their own models (Items, Keys/Values, Get) after every step; Items() again after the lookups and after Marshal of a decoded HashmapE; reference-written highload-v2 payload dictionaries (HashmapE 16 ^[mode msg], arbitrary 16-bit key sets: not numbered from 0, gaps, 0xffff; all label forms) decoded through wallet.PayloadHighload, DecodeHighloadV2Message and ExtractRawMessages: every entry back, in ascending key order; tlb.ProveKeyInHashmap as one more lookup on the cell tree of the own encoding and of one foreign variant per case (dictionaries up to 300 entries: 3 present keys must be found with their values, up to 8 absent keys - a present key with one bit flipped at the end / inside the leaf label / anywhere, random - must not be found); BlockExtra.InMsgDescrLength/OutMsgDescrLength (second label parser) = number of entries for 256-bit keys. evaluations = comparisons made; non-trivial = non-empty dictionary; distinct = (sub-check, key type, value type, root hash of the encoding[, label-form mix | update script])"
 	R.Assume("reference dictionary reader/writer harness/ref/dict is correct: pinned at start-up by reading every dictionary of the repository's real blocks/config proofs (keys repeat inside their values) and by re-writing them to the same root hash")
 	R.Assume("AddressWithWorkchain keys are drawn with workchains that fit the type's int8 field (sign-extended to the 32-bit key field)")
 	R.Assume("Grams values stay below 2^63 (larger amounts are property C03's subject)")
@@ -1399,6 +1399,7 @@ func main() {
 	wg.Wait()
 	libDescrs()
 	configParams()
+	highloadPayloads()
 	var pairs []string
 	for _, p := range registry {
 		pairs = append(pairs, p.kname+"/"+p.vname)
